@@ -117,6 +117,37 @@ Theorem C17_pings_budget :
 Proof. exact pings_budget. Qed.
 Print Assumptions C17_pings_budget.
 
+(* (4'') inbound traffic never resets the budget: Connection.ack (the application consumed received
+   DATA; flow-control credit / WINDOW_UPDATE goes out) leaves the whole keepalive state unchanged, and
+   its log item is not "data sent", so C17_pings_budget bounds the PINGs of every stretch without
+   data/headers SENT however much is received in it (example: ex_budget_receiving) *)
+Theorem C17_acked_is_inert :
+  forall c s, step c s Acked = (s, [(now s, IRecv)]).
+Proof. exact acked_is_inert. Qed.
+Print Assumptions C17_acked_is_inert.
+
+Theorem C17_recv_is_not_data : forall t, is_data (t, IRecv) = false.
+Proof. exact recv_is_not_data. Qed.
+Print Assumptions C17_recv_is_not_data.
+
+(* ... tied to the source: EVERY assignment in grpclib/ to ping_count_in_sequence, last_ping_sent,
+   _ping_handle, _close_by_ping_handler (any module, any object; regenerated on every run): the counter
+   is written by _ping (+1), headers_send_process (0), data_send_process (0) and nothing else *)
+Theorem C17_keepalive_writers :
+  keepalive_writers =
+  [ (s2z "ping_count_in_sequence",
+     [(s2z "protocol:Connection._ping", s2z "inc");
+      (s2z "protocol:Connection.headers_send_process", s2z "zero");
+      (s2z "protocol:Connection.data_send_process", s2z "zero")]);
+    (s2z "last_ping_sent", [(s2z "protocol:Connection._ping", s2z "now")]);
+    (s2z "_ping_handle",
+     [(s2z "protocol:Connection.initialize", s2z "arm"); (s2z "protocol:Connection._ping", s2z "arm")]);
+    (s2z "_close_by_ping_handler",
+     [(s2z "protocol:Connection._ping", s2z "arm");
+      (s2z "protocol:Connection.ping_ack_process", s2z "none")]) ].
+Proof. exact writers_exact. Qed.
+Print Assumptions C17_keepalive_writers.
+
 (* (5) "every keepalive_time ...": while the connection is open the ping timer fires at
    t0 + j * keepalive_time for every j >= 1; each firing is logged as IPing (a PING was sent) or ISkip
    (fire_ping logs ISkip exactly when need_ping is false) *)
